@@ -111,7 +111,7 @@ func (ex *Exec) lookup(st *State, in *ssa.Lookup) Value {
 	switch t := types.Unalias(in.X.Type()).Underlying().(type) {
 	case *types.Map:
 		if k.Sort == SVal {
-			ex.oblige(st, "cmp", "", in, app(SBool, "tcomparable", app(SInt, "typeof", k)), "map key of interface type has a comparable dynamic type")
+			ex.oblige(st, "cmp", "", in, app(SBool, "vcomparable", k), "map key of interface type is comparable (hashable) in depth")
 		}
 		has := ex.mapHas(st, t, x, k)
 		v := ite(has, ex.mapGet(st, t, x, k), ex.zero(t.Elem()))
@@ -343,7 +343,7 @@ func (ex *Exec) mapUpdate(st *State, in *ssa.MapUpdate) {
 	v := ex.term(st, ex.val(st, in.Value))
 	ex.oblige(st, "nil", "", in, not(eq(m, intLit(0))), "assignment to entry in non-nil map")
 	if k.Sort == SVal {
-		ex.oblige(st, "cmp", "", in, app(SBool, "tcomparable", app(SInt, "typeof", k)), "map key of interface type has a comparable dynamic type")
+		ex.oblige(st, "cmp", "", in, app(SBool, "vcomparable", k), "map key of interface type is comparable (hashable) in depth")
 	}
 	hn, vn, has, val, ks, vs := ex.mapHeaps(st, mt)
 	ex.frameWrite(st, in, hn, ge(m, st.alloc0))
